@@ -142,39 +142,17 @@ def check(ctx, world):
         e2.import_all()
         pol = e2.policy
         pol.force_inline.add(f.qual)
-        if ev.policy.classify(f) == "leaf" and ev.policy.ret_shape(f) is None:
+        if ev.policy.classify(f) == "leaf" and ev.policy.ret_shape(f) is None and Policy.returns_boolean(f.node):
             okid, why = gm.identity_test_ok(world, ev, f)
             if okid:
                 n_id += 1
                 ctx.ob("P5-identity-test", f.qual, True, "decides the identity in extended coordinates: " + why, site)
+                continue
+            okc, why = gm.oncurve_test_ok(world, ev, f)
+            if okc:
+                n_curve += 1
+                ctx.ob("P5-on-curve", f.qual, True, why, site)
             continue
-        if ev.policy.classify(f) != "inline" or ev.policy.ret_shape(f) is not None:
-            continue
-        try:
-            outs = e2.run(f, [TupleV([Sym("x", "int"), Sym("y", "int")], "list")], [], world.static.fork())
-        except AnalysisError:
-            continue
-        rets = session.rets(outs)
-        if len(rets) != 1 or not is_app(rets[0].value, "Eq"):
-            continue
-        t = rets[0].value
-        if Const(0) not in t.args:
-            continue
-        other = t.args[0] if t.args[1] == Const(0) else t.args[1]
-        if not (is_app(other, "Mod") and other.args[1] == Const(Q)):
-            continue
-        atoms = {"x": Sym("x", "int"), "y": Sym("y", "int")}
-        try:
-            pe = term_poly(other.args[0], Q, atoms)
-        except AnalysisError:
-            continue
-        px, py = Poly.var(Q, "x"), Poly.var(Q, "y")
-        curve = -(px * px) + py * py - 1 - Poly.const(Q, d) * px * px * py * py
-        c = (-pe.t.get((), 0)) % Q
-        ok = bool(c) and (pe - curve * c).is_zero()
-        n_curve += 1
-        ctx.ob("P5-on-curve", f.qual, ok, "tests -x^2 + y^2 - 1 - d x^2 y^2 = 0 (mod Q)" if ok else
-               "on-curve predicate is not the curve equation", site)
     # (which helpers exist is not part of the property: a helper that is written differently is
     # simply not listed here; the rules that rely on one - C05 D3, C15 K5 - recognise it themselves)
     ctx.note("helpers recognised and checked: affine->extended %d, extended->affine %d, on-curve %d, identity %d" % (n_a2e, n_e2a, n_curve, n_id))
@@ -196,48 +174,122 @@ def check(ctx, world):
                     v = world.static_lookup(world.mods[mv.name], c.func.attr)
                     if isinstance(v, FuncV):
                         callers_of.setdefault(v.qual, []).append((mod, qual, node, c))
-    fast_ladders = set()
+    fast_ladders = set()      # functions through which the dedicated addition is reached: ladders that call it,
+    #                           and wrappers that pass it to a higher-order ladder as its addition
+    for (mod, qual, node) in world.functions():
+        fq = mod.name + "." + qual
+        f = gm.func_by_qual(world, fq)
+        for c in ast.walk(node):
+            if not isinstance(c, ast.Call):
+                continue
+            tgt = world.static_lookup(mod, c.func.id) if isinstance(c.func, ast.Name) else None
+            if isinstance(tgt, FuncV) and tgt.qual in dedicated:
+                isl = f is not None and ev.policy.classify(f) == "recursive"
+                if isl:
+                    fast_ladders.add(fq)
+                ctx.ob("P6-caller", "%s <- %s" % (tgt.qual, fq), isl,
+                       "dedicated addition is called from a double-and-add ladder" if isl else
+                       "dedicated (non-unified) addition is called outside a scalar-multiplication ladder: general points may be equal/opposite",
+                       (mod.relpath, c.lineno, qual))
+            for a in list(c.args) + [k.value for k in c.keywords]:
+                av = world.static_lookup(mod, a.id) if isinstance(a, ast.Name) else None
+                if isinstance(av, FuncV) and av.qual in dedicated:
+                    isl = isinstance(tgt, FuncV) and ev.policy.classify(tgt) == "recursive" and a in c.args[2:]
+                    if isl:
+                        fast_ladders.add(fq)
+                    ctx.ob("P6-caller", "%s <- %s" % (av.qual, fq), isl,
+                           "dedicated addition is passed as the addition of the double-and-add ladder %s" % (tgt.qual if isl else "") if isl else
+                           "dedicated (non-unified) addition is handed to something that is not a scalar-multiplication ladder",
+                           (mod.relpath, c.lineno, qual))
+    # any other mention of the dedicated addition (stored, returned, aliased) escapes this analysis
     for dq in sorted(dedicated):
-        for (mod, qual, node, c) in callers_of.get(dq, []):
-            fq = mod.name + "." + qual
-            f = gm.func_by_qual(world, fq)
-            isl = f is not None and ev.policy.classify(f) == "recursive"
-            if isl:
-                fast_ladders.add(fq)
-            ctx.ob("P6-caller", "%s <- %s" % (dq, fq), isl,
-                   "dedicated addition is called from a double-and-add ladder" if isl else
-                   "dedicated (non-unified) addition is called outside a scalar-multiplication ladder: general points may be equal/opposite",
-                   (mod.relpath, c.lineno, qual))
+        dn = dq.rsplit(".", 1)[1]
+        for (mod, qual, node) in world.functions():
+            for c in ast.walk(node):
+                if isinstance(c, ast.Name) and c.id == dn and isinstance(c.ctx, ast.Load) and isinstance(world.static_lookup(mod, c.id), FuncV):
+                    par = getattr(c, "_parent", None)
+                    if isinstance(par, ast.Call) and (par.func is c or c in par.args or c in [k.value for k in par.keywords]):
+                        continue
+                    ctx.ob("P6-caller", "%s <- %s.%s" % (dq, mod.name, qual), False,
+                           "the dedicated addition is used as a value outside a call: its uses cannot be bounded", (mod.relpath, c.lineno, qual))
+
+    def is_fast_call(rec):
+        """a logged opaque call that reaches the dedicated addition: a ladder that calls it or a ladder it is passed to"""
+        if rec[0] != "opaque-call":
+            return False
+        if rec[1].qual in fast_ladders and ev.policy.classify(rec[1]) == "recursive":
+            return True
+        return ev.policy.classify(rec[1]) == "recursive" and any(isinstance(a, FuncV) and a.qual in dedicated for a in rec[2][2:])
     L = None
     _, G = gm.group_classes(world, ev)
     oo = session.rets(ev.run_method(G, "order", [], st=world.static.fork()))
     if len(oo) == 1 and isinstance(oo[0].value, Const):
         L = oo[0].value.v
     ctx.require(L is not None, "anchor vanished: Ed25519 group order()")
+    # who may call the fast ladder: only methods of the subgroup-element class; a private
+    # (underscore) helper method may be called only as self.<helper>(...) from methods of that
+    # class, which are then examined in its place.  Every public method in that closure is
+    # evaluated on a subgroup element with symbolic arguments and every ladder call it makes
+    # (in whichever helper) must multiply the receiver's own coordinates by a scalar in [1, L).
+    attr_calls = {}
+    for (mod, qual, node) in world.functions():
+        for c in ast.walk(node):
+            if isinstance(c, ast.Call) and isinstance(c.func, ast.Attribute):
+                attr_calls.setdefault(c.func.attr, []).append((mod, qual, node, c))
+
+    def owner_of(mod, node):
+        parent = getattr(node, "_parent", None)
+        return mod.env.get(parent.name) if isinstance(parent, ast.ClassDef) else None
+
+    def is_private(name):
+        return name.startswith("_") and not (name.startswith("__") and name.endswith("__"))
     for lq in sorted(fast_ladders):
+        entry, work, done = {}, [], set()
         for (mod, qual, node, c) in callers_of.get(lq, []):
             fq = mod.name + "." + qual
             if fq == lq:
                 continue       # the recursive call itself
             site = (mod.relpath, c.lineno, qual)
-            inst = "%s <- %s" % (lq, fq)
-            parent = getattr(node, "_parent", None)
-            owner = mod.env.get(parent.name) if isinstance(parent, ast.ClassDef) else None
-            if not (isinstance(owner, ClassV) and base_cls in [owner] and node.args.args):
-                ctx.ob("P6-site", inst, False,
+            owner = owner_of(mod, node)
+            if not (isinstance(owner, ClassV) and owner is base_cls and node.args.args):
+                ctx.ob("P6-site", "%s <- %s" % (lq, fq), False,
                        "the fast ladder (dedicated addition) is called outside the subgroup-element class %s: its point may have small order" % base_cls.name, site)
                 continue
+            work.append((mod, qual, node, site))
+        while work:
+            (mod, qual, node, site) = work.pop()
+            if qual in done:
+                continue
+            done.add(qual)
+            if not is_private(node.name):
+                entry[qual] = (mod, node, site)
+                continue
+            users = attr_calls.get(node.name, [])
+            for (m2, q2, n2, c2) in users:
+                o2 = owner_of(m2, n2)
+                onself = isinstance(c2.func.value, ast.Name) and n2.args.args and c2.func.value.id == n2.args.args[0].arg
+                if not (isinstance(o2, ClassV) and o2 is base_cls and onself):
+                    ctx.ob("P6-site", "%s <- %s <- %s.%s" % (lq, qual, m2.name, q2), False,
+                           "the private fast-path helper %s is called from outside the methods of %s (or not on self): its scalar and point are unconstrained there"
+                           % (qual, base_cls.name), (m2.relpath, c2.lineno, q2))
+                    continue
+                work.append((m2, q2, n2, (m2.relpath, c2.lineno, q2)))
+            if not users:
+                ctx.note("private helper %s (calls the fast ladder) has no caller" % qual)
+        for qual, (mod, node, site) in sorted(entry.items()):
+            fq = mod.name + "." + qual
+            inst = "%s <- %s" % (lq, fq)
             # evaluate the method on a subgroup element and look at the ladder call's arguments
             e2 = Ev(world)
             e2.import_all()
             st = world.static.fork()
             recv = gm.ed_module_of(world, ev)[1]
-            args = [Sym("s", "int")] if len(node.args.args) > 1 else []
+            args = [Sym("s%d" % i if i else "s", "int") for i in range(len(node.args.args) - 1)]
             outs = e2.run_method(recv, node.name, args, st=st)
             seen = 0
             for o in outs:
                 for rec in o.state.log:
-                    if rec[0] == "opaque-call" and rec[1].qual == lq and rec[3][2].endswith(qual):
+                    if is_fast_call(rec):
                         seen += 1
                         pt, n = rec[2][0], rec[2][1]
                         okp = pt in o.state.heap[recv.oid].values()
@@ -251,9 +303,10 @@ def check(ctx, world):
                             okn = red and nz
                             why = "scalar is reduced mod L and 0 is excluded" if okn else \
                                 "scalar %s is not provably in [1, L) (reduced: %s, zero excluded: %s)" % (show(n, maxdepth=3), red, nz)
+                        rsite = rec[3] if isinstance(rec[3], tuple) else site
                         ctx.ob("P6-site", inst + "#%d" % seen, okp and okn,
                                ("receiver's own coordinates; " + why) if okp and okn else
-                               ("point argument is not the subgroup element's own coordinates; " if not okp else "") + why, site)
+                               ("point argument is not the subgroup element's own coordinates; " if not okp else "") + why, rsite)
             if not seen:
                 ctx.ob("P6-site", inst, False, "could not observe the ladder call while evaluating %s" % fq, site)
     if dedicated:
